@@ -18,7 +18,7 @@ func init() {
 	Register("C14", &Info{
 		Run:   runC14,
 		Quick: 10000, Thor: 1500000,
-		Rule: "a world = a history of 1-2 connections of one fingerprint (HelloGolang, ticket/PSK-capable parrots, any parrot by stratum) to a server presenting one fixture chain (valid, wrong name, untrusted root, expired, not yet valid, short-lived) at TLS 1.2 or 1.3, each connection with its own Config (ServerName incl. IPv4/IPv6 literals, InsecureServerNameToVerify in {unset, *, matching, other}, InsecureSkipTimeVerify, InsecureSkipVerify) and its own client clock (Config.Time offset; jumps of days/weeks/decades, forwards or backwards, between the connections) over a shared session cache; ECH dimension (TLS 1.3, ECH-capable fingerprints): no ECH, an accepting server (verification against the configured name as usual) or a rejecting server (the chain must verify against the config's public name: then and only then the client returns ECHRejectionError), with a certificate valid for every name or for the public name only; oracle: independent truth table - a handshake succeeds iff InsecureSkipVerify or (chain trusted and validity period ok at the client's time unless InsecureSkipTimeVerify and leaf matches the verification name unless it is *); a second (possibly resumed) connection may never succeed where a fresh verification under its own Config and clock would fail; non-trivial = verification actually ran (InsecureSkipVerify unset); distinct = (fingerprint, cert, both configs, clock offsets, version)",
+		Rule: "a world = a history of 1-2 connections of one fingerprint (HelloGolang, ticket/PSK-capable parrots, any parrot by stratum) to a server presenting one fixture chain (valid, wrong name, untrusted root, expired, not yet valid, short-lived) at TLS 1.2 or 1.3, each connection with its own Config (ServerName incl. IPv4/IPv6 literals, optionally replaced through SetSNI after an explicit BuildHandshakeState, InsecureServerNameToVerify in {unset, *, matching, other}, InsecureSkipTimeVerify, InsecureSkipVerify) and its own client clock (Config.Time offset; jumps of days/weeks/decades, forwards or backwards, between the connections) over a shared session cache; ECH dimension (TLS 1.3, ECH-capable fingerprints): no ECH, an accepting server (verification against the configured name as usual) or a rejecting server (the chain must verify against the config's public name: then and only then the client returns ECHRejectionError), with a certificate valid for every name or for the public name only; oracle: independent truth table - a handshake succeeds iff InsecureSkipVerify or (chain trusted and validity period ok at the client's time unless InsecureSkipTimeVerify and leaf matches the verification name unless it is *); a second (possibly resumed) connection may never succeed where a fresh verification under its own Config and clock would fail; non-trivial = verification actually ran (InsecureSkipVerify unset); distinct = (fingerprint, cert, both configs, clock offsets, version)",
 		Assumptions: []string{"trust/validity/name ground truth comes from how the fixtures were generated (tools/genfix), not from x509.Verify",
 			"ECH strata (accepted / rejected verifies against the public name) are part of the C15 scenario"},
 		Real: []string{"utls client from /repo", "utls or std server"},
@@ -76,6 +76,10 @@ func nameMatches(names []string, host string) bool {
 }
 
 type verifyCfg struct {
+	// lateSNI: after an explicit BuildHandshakeState the caller calls SetSNI(lateSNI) ("" = not done);
+	// SetSNI also replaces Config.ServerName by the host_name form of its argument (empty for IP
+	// literals), which is then the default verification name
+	lateSNI    string
 	serverName string
 	toVerify   string
 	skipTime   bool
@@ -84,7 +88,7 @@ type verifyCfg struct {
 }
 
 func (v verifyCfg) String() string {
-	return fmt.Sprintf("sn=%s verify=%q skiptime=%v skipverify=%v clock=+%v", v.serverName, v.toVerify, v.skipTime, v.skipVerify, v.clockOff)
+	return fmt.Sprintf("sn=%s late=%q verify=%q skiptime=%v skipverify=%v clock=+%v", v.serverName, v.lateSNI, v.toVerify, v.skipTime, v.skipVerify, v.clockOff)
 }
 
 // shouldVerify is the truth table.
@@ -105,10 +109,19 @@ func shouldVerify(ct certTruth, v verifyCfg) (ok bool, why string) {
 		}
 	}
 	name := v.serverName
+	if v.lateSNI != "" {
+		name = v.lateSNI
+		if !legalHostName(name) {
+			name = "" // SetSNI leaves no default verification name behind
+		}
+	}
 	if v.toVerify != "" {
 		name = v.toVerify
 	}
-	if name != "*" && name != "" && !nameMatches(ct.names, name) {
+	if name == "" {
+		return false, "no verification name" // neither ServerName nor an override: the handshake must be refused
+	}
+	if name != "*" && !nameMatches(ct.names, name) {
 		return false, "name mismatch"
 	}
 	return true, "ok"
@@ -119,6 +132,9 @@ func drawVerifyCfg(ch *simrt.Chooser, prev *verifyCfg) verifyCfg {
 	// fixtures carry none, so they match only through InsecureServerNameToVerify)
 	v := verifyCfg{serverName: []string{"example.test", "example.test", "x.wild.test", "unrelated.test", "192.0.2.7", "[2001:db8::7]"}[ch.Pick(6, "sn")]}
 	v.toVerify = []string{"", "", "*", "example.test", "other.test", "nomatch.test"}[ch.Pick(6, "toverify")]
+	if ch.Bool(15, "late-sni") {
+		v.lateSNI = []string{"192.0.2.7", "2001:db8::7", "unrelated.test", "example.test", "www.example.test"}[ch.Pick(5, "late-sni-value")]
+	}
 	v.skipTime = ch.Bool(25, "skiptime")
 	v.skipVerify = ch.Bool(12, "skipverify")
 	offs := []time.Duration{0, time.Hour, 3 * 24 * time.Hour, 10 * 24 * time.Hour, 40 * 24 * time.Hour, 60 * 365 * 24 * time.Hour, 95 * 365 * 24 * time.Hour}
@@ -212,6 +228,19 @@ func runC14(c *Ctx) {
 		if echMode != "none" {
 			cfg.EncryptedClientHelloConfigList = echList
 			cfg.MinVersion = tls.VersionTLS13
+			v.lateSNI = ""
+			cfgs[i].lateSNI = ""
+		}
+		if late := v.lateSNI; late != "" && idi.ID != tls.HelloGolang {
+			sp.Prep = func(u *tls.UConn) error {
+				if err := u.BuildHandshakeState(); err != nil {
+					return err
+				}
+				u.SetSNI(late)
+				return nil
+			}
+		} else {
+			v.lateSNI = ""
 		}
 		o := RunConn(c, w, sp)
 		want, why := shouldVerify(ct, v)
